@@ -119,7 +119,7 @@ def valid_nonneg(data: Union[ttb.tensor, ttb.sptensor]) -> bool:
     """Check if provided data is valid non-negative tensor."""
     if isinstance(data, ttb.sptensor):
         return bool(np.all(data.vals > 0))
-    return bool(np.all(data.data > 0))
+    return bool(np.all(data.data >= 0))
 
 
 def valid_binary(data: Union[ttb.tensor, ttb.sptensor]) -> bool:
